@@ -75,8 +75,8 @@ def gen_schmidt(repo, out):
     stmts = [s for s in blk[1] if s != ("use",)]
     tail = blk[2]
     amp = ("mcall", ("path", ["amplitudes"]), "as_ref", [])
-    if len(stmts) != 7:
-        _fail(path, it, f"expected 7 statements (len, dim, check, jsa_mag, svd, norm_sq, kinv), found {len(stmts)}")
+    if len(stmts) != 8:
+        _fail(path, it, f"expected 8 statements (len, dim, check, jsa_mag, svd, singular_values, norm_sq, kinv), found {len(stmts)}")
     # 1. let len = amplitudes.as_ref().len();
     if stmts[0] != ("let", ("pbind", "len", False), None, ("mcall", amp, "len", [])):
         _fail(path, it, "statement 1 is not `let len = amplitudes.as_ref().len()`")
@@ -124,17 +124,21 @@ def gen_schmidt(repo, out):
     layout = next((v for k, v in layouts if k == ctor[1]), None)
     if layout is None:
         _fail(path, it, f"unknown matrix constructor {ctor[1]!r}")
-    # 6. let norm_sq = svd.singular_values.norm_squared();
-    sv = ("field", ("path", ["svd"]), "singular_values")
-    if stmts[5] != ("let", ("pbind", "norm_sq", False), None, ("mcall", sv, "norm_squared", [])):
-        _fail(path, it, "statement 6 is not `let norm_sq = svd.singular_values.norm_squared()`")
-    # 7. let kinv = svd.singular_values.fold(init, |acc, x| acc + <expr x>);
-    s = stmts[6]
+    # 6. let singular_values = &svd.singular_values / svd.singular_values.max();   (normalisation by the largest singular value)
+    raw = ("field", ("path", ["svd"]), "singular_values")
+    if stmts[5] != ("let", ("pbind", "singular_values", False), None, ("bin", "/", ("unary", "&", raw), ("mcall", raw, "max", []))):
+        _fail(path, it, "statement 6 is not `let singular_values = &svd.singular_values / svd.singular_values.max()`")
+    # 7. let norm_sq = singular_values.norm_squared();
+    sv = ("path", ["singular_values"])
+    if stmts[6] != ("let", ("pbind", "norm_sq", False), None, ("mcall", sv, "norm_squared", [])):
+        _fail(path, it, "statement 7 is not `let norm_sq = singular_values.norm_squared()`")
+    # 8. let kinv = singular_values.fold(init, |acc, x| acc + <expr x>);
+    s = stmts[7]
     ok = (s[0] == "let" and s[1] == ("pbind", "kinv", False) and s[3][0] == "mcall" and s[3][1] == sv and s[3][2] == "fold"
           and len(s[3][3]) == 2 and s[3][3][1][0] == "closure" and s[3][3][1][1] == [("pbind", "acc", False), ("pbind", "x", False)]
           and s[3][3][1][2][0] == "bin" and s[3][3][1][2][1] == "+" and s[3][3][1][2][2] == ("path", ["acc"]))
     if not ok:
-        _fail(path, it, "statement 7 is not `let kinv = svd.singular_values.fold(init, |acc, x| acc + …)`")
+        _fail(path, it, "statement 8 is not `let kinv = singular_values.fold(init, |acc, x| acc + …)`")
     init = r_expr(s[3][3][0], {}, path, it)
     term = r_expr(s[3][3][1][2][3], {"x": "(sv k)"}, path, it)
     # tail: Ok(<expr of norm_sq, kinv>)
@@ -153,7 +157,9 @@ Definition src_accepted (len : N) : bool := let dim := src_dim len in negb {cond
 Definition src_mag (j : cx R) : R := {mag}.
 (* DMatrix::from_…_slice(dim, dim, &jsa_mag) *)
 Definition src_matrix (n : nat) (m : nat -> R) : nat -> nat -> R := {layout}.
-(* norm_squared, the fold, the final quotient *)
+(* &svd.singular_values / svd.singular_values.max() *)
+Definition src_normalised (n : nat) (raw : nat -> R) : nat -> R := fun k => raw k / sv_max n raw.
+(* norm_squared, the fold, the final quotient — on the normalised values *)
 Definition src_kinv (n : nat) (sv : nat -> R) : R := {init} + rsum n (fun k => {term}).
 Definition src_result (n : nat) (sv : nat -> R) : R :=
   let norm_sq := rsum n (fun k => sv k * sv k) in
@@ -167,7 +173,8 @@ Definition src_schmidt_number (svd : nat -> (nat -> nat -> R) -> option (nat -> 
     let dim := N.to_nat (src_dim (N.of_nat len)) in
     match svd dim (src_matrix dim (fun k => src_mag (a k))) with
     | None => ErrSvd
-    | Some sv => if Req_EM_T (src_kinv dim sv) 0 then OkNaN else OkK (src_result dim sv)   (* x / 0.0 with x = 0: NaN *)
+    | Some raw => if Req_EM_T (sv_max dim raw) 0 then OkNaN                 (* 0.0 / 0.0 in the normalisation: NaN *)
+                  else OkK (src_result dim (src_normalised dim raw))
     end
   else ErrNotSquare.
 """
